@@ -348,6 +348,9 @@ func callSSA(i *interpreter, caller *frame, callpos token.Pos, fn *ssa.Function,
 				}
 			}
 			if m := i.eng.modelFns[name]; m != nil && m != fn {
+				if name == "fmt.Sprintf" {
+					args = sprintfIntegerArgs(args)
+				}
 				return callSSA(i, caller, callpos, m, args, nil)
 			}
 		}
@@ -692,4 +695,53 @@ func (e *Engine) Explore(fn *ssa.Function, workers []*Worker, opts ExploreOpts) 
 	wg.Wait()
 	sum.WallS = time.Since(t0).Seconds()
 	return sum
+}
+
+// sprintfIntegerArgs: the %d verb prints the number of a value of a named integer type even when the type has a
+// String method (time.Month): such operands are handed to the Go model of Sprintf as plain integers.
+func sprintfIntegerArgs(args []value) []value {
+	format, ok := args[0].(string)
+	if !ok || len(args) < 2 {
+		return args
+	}
+	ops, ok := args[1].([]value)
+	if !ok {
+		return args
+	}
+	out := append([]value(nil), ops...)
+	ai := 0
+	changed := false
+	for k := 0; k < len(format); k++ {
+		if format[k] != '%' {
+			continue
+		}
+		k++
+		if k < len(format) && format[k] == '%' {
+			continue
+		}
+		for k < len(format) && (format[k] == '0' || format[k] == '-' || format[k] == '+' || format[k] == ' ' || format[k] == '#' || (format[k] >= '1' && format[k] <= '9') || format[k] == '.' || format[k] == '*') {
+			if format[k] == '*' {
+				ai++
+			}
+			k++
+		}
+		if k >= len(format) || ai >= len(out) {
+			break
+		}
+		if format[k] == 'd' {
+			if a, isI := out[ai].(iface); isI && a.t != nil {
+				if _, named := a.t.(*types.Named); named {
+					if b, isB := a.t.Underlying().(*types.Basic); isB && b.Info()&types.IsInteger != 0 {
+						out[ai] = iface{t: types.Typ[b.Kind()], v: a.v}
+						changed = true
+					}
+				}
+			}
+		}
+		ai++
+	}
+	if !changed {
+		return args
+	}
+	return []value{args[0], out}
 }
